@@ -177,6 +177,58 @@ class C09:
             return ("ext", f"sklearn.metrics.{name}")
 
         NP = lambda n: ("ext", f"numpy.{n}")
+        # every call into scikit-learn binds against the function's parameters (names as documented for the trusted base), the truth
+        # argument is computed from y_true alone and the prediction argument from y_score (never crossed)
+        SK_PARAMS = {"accuracy_score": ("y_true", "y_pred", "normalize", "sample_weight"),
+                     "balanced_accuracy_score": ("y_true", "y_pred", "sample_weight", "adjusted"),
+                     "top_k_accuracy_score": ("y_true", "y_score", "k", "normalize", "sample_weight", "labels"),
+                     "jaccard_score": ("y_true", "y_pred", "labels", "pos_label", "average", "sample_weight", "zero_division"),
+                     "average_precision_score": ("y_true", "y_score", "average", "pos_label", "sample_weight"),
+                     "log_loss": ("y_true", "y_pred", "normalize", "sample_weight", "labels")}
+        mm = ctx.index.module(MET)
+        for fname, defs in mm.defs.items():
+            d = defs[-1]
+            if not isinstance(d, ast.FunctionDef):
+                continue
+            fs = ctx.summ.of_func(MET, fname)
+            if "y_true" not in fs.params or "y_score" not in fs.params:
+                continue
+            YT_, YS_ = ("param", "y_true"), ("param", "y_score")
+            for e in fs.calls:
+                t = e.term
+                if not (t[1][0] == "ext" and t[1][1].startswith("sklearn.metrics.") and t[1][1].split(".")[-1] in SK_PARAMS):
+                    continue
+                skn = t[1][1].split(".")[-1]
+                sig = SK_PARAMS[skn]
+                bound, problems = {}, []
+                for i_, a_ in enumerate(t[2]):
+                    if i_ < 2:
+                        bound[sig[i_]] = a_
+                    else:
+                        problems.append(f"{i_ + 1} positional arguments (everything after y_true and the predictions is keyword-only)")
+                for k_, v_ in t[3]:
+                    if k_ == "**":
+                        continue
+                    if k_ not in sig:
+                        problems.append(f"unexpected keyword `{k_}`")
+                    elif k_ in bound:
+                        problems.append(f"`{k_}` given twice")
+                    else:
+                        bound[k_] = v_
+                for need in sig[:2]:
+                    if need not in bound:
+                        problems.append(f"`{need}` is not given")
+                tr_, pr_ = bound.get(sig[0]), bound.get(sig[1])
+                if tr_ is not None and (any(x == YS_ for x in walk(tr_)) and not any(x == YT_ for x in walk(tr_))):
+                    problems.append(f"the truth argument is computed from y_score ({show(tr_)[:40]})")
+                if pr_ is not None and (any(x == YT_ for x in walk(pr_)) and not any(x == YS_ for x in walk(pr_))):
+                    problems.append(f"the prediction argument is computed from y_true ({show(pr_)[:40]})")
+                site_ = f"{file}:{e.lineno} {fname}"
+                if problems:
+                    ctx.bad("R09.3", file, fname, f"{skn}({', '.join(k for k in bound)})",
+                            f"metrics.{fname}: the call of sklearn.metrics.{skn} is malformed or crossed: {'; '.join(problems)}", e.lineno)
+                else:
+                    ctx.ok("R09.3", site_, f"{skn}: truth from y_true, prediction from y_score, keywords {sorted(set(bound) - set(sig[:2]))}")
         family = {"accuracy": "accuracy_score", "balanced_accuracy": "balanced_accuracy_score", "top_3_accuracy": "top_k_accuracy_score"}
         for fname, skname in family.items():
             s = ctx.summ.of_func(MET, fname)
@@ -864,6 +916,15 @@ def run(ctx: Ctx):
                 c1.check_pair(col.ci.name, col.ci, col.D, col.O, "to_aoef", "to_soundevent", [], collection=True, only={"metrics", "score"})
     # "over the encoded truths and predicted scores": every task encodes through SimpleEncoder / the *_encoding helpers, so
     # a table keyed by less than the whole tag identity (or an indicator written at the wrong index) changes every value
+    # in sound_event_detection the evaluated items are produced by the index bookkeeping of evaluate_clip: which sound events
+    # reach the truth / score rows, each exactly once (C08's rules on that function are necessary conditions here)
+    from .c08 import C08
+    with ctx.delegated("C08/"):
+        ctx.rule("R08.2", "index-domain typing of every subscript of the prediction/annotation lists", 4)
+        ctx.rule("R08.3", "both lists are covered exactly once by the sources of the match loop", 2)
+        ctx.rule("R08.4", "affinity/score flow of two-sided and one-sided matches", 5)
+        ctx.rule("R08.7", "three None-cases, exactly one Match each with the right sides", 3)
+        C08(ctx).check_evaluate_clip()
     from .c19 import C19
     with ctx.delegated("C19/"):
         ctx.rule("R19.1", "encoder table key == lookup key == whole tag identity; decode / num_classes", 5)
